@@ -117,7 +117,7 @@ Case make_case(uint64_t seed, long long idx, const std::string &grid, bool thoro
   c.sc.pct_depth = 1 + (int)r.below(3);
   c.sc.pct_horizon = 50 + 40 * (c.n / 16 + c.T);
   c.sc.step_bound = thorough ? 2000000 : 400000;
-  c.sc.cpu_bound_s = 20;
+  c.sc.cpu_bound_s = 6;
   return c;
 }
 
@@ -308,6 +308,7 @@ int main(int argc, char **argv) {
   FILE *res = fopen(outp.c_str(), "w");
   if (!res) { perror("harness: results"); return 2; }
   if (!freopen("/dev/null", "w", stdout)) return 2;
+  int abnormal = 0;
   for (long long idx = 0; idx < count; idx++) {
     if (only >= 0 ? idx != only : (idx % nshards) != shard) continue;
     Case c = make_case(seed, idx, grid, thorough);
@@ -352,6 +353,11 @@ int main(int argc, char **argv) {
       else result = "{\"status\":\"exit:" + std::to_string(WEXITSTATUS(st)) + "\"}";
     }
     fprintf(res, "{\"case\":%s,\"result\":%s}\n", case_json(c, idx).c_str(), result.c_str());
+    if (result.find("\"status\":\"ok\"") == std::string::npos && ++abnormal >= 30) {
+      // enough witnesses: a tree that fails everywhere must not cost hours (each hang witness burns its CPU bound)
+      fprintf(res, "{\"aborted_early\":true,\"at_idx\":%lld}\n", idx);
+      break;
+    }
   }
   fclose(res);
   return 0;
